@@ -92,7 +92,7 @@ def c02_stages(tier):
     st = [AT('compose-q', 'MC_AffTree_compose_q.cfg'), AT('compose-dim', 'MC_AffTree_compose_dim.cfg'),
           AT('compose-k4', 'MC_AffTree_compose_k4.cfg'), AT('compose-g2', 'MC_AffTree_compose_g2.cfg'),
           # terminals with a constant component that lies exactly on a threshold of the right operand (constant pulled-back predicates)
-          AT('compose-z', 'MC_AffTree_compose_z.cfg')]
+          AT('compose-z', 'MC_AffTree_compose_z.cfg'), DR('compose')]
     if tier == 'thorough':
         st += [AT('compose-t', 'MC_AffTree_compose_t.cfg'), AT('compose-dimt', 'MC_AffTree_compose_dimt.cfg'),
                AT('compose-k4t', 'MC_AffTree_compose_k4t.cfg')]
@@ -129,7 +129,7 @@ def RG(name, cfg):
 
 def c09_stages(tier):
     # regions-k4: K = 4 trees with one- and two-row decisions, children under labels the predicate cannot produce included
-    st = [RG('regions-q', 'MC_AffTree_regions_q.cfg'), RG('regions-k4', 'MC_AffTree_regions_k4.cfg')]
+    st = [RG('regions-q', 'MC_AffTree_regions_q.cfg'), RG('regions-k4', 'MC_AffTree_regions_k4.cfg'), DR('regions', 'Trace_Regions')]
     if tier == 'thorough':
         st += [RG('regions-t', 'MC_AffTree_regions_t.cfg'), RG('regions-k4t', 'MC_AffTree_regions_k4t.cfg')]
     return st
@@ -148,7 +148,7 @@ def prune_stages(tier):
           HS('prune-2d', 'MC_AffTree_prune_2d.cfg'), HS('prune-d3', 'MC_AffTree_prune_d3.cfg'),
           HS('pruneg-q', 'MC_AffTree_pruneg_q.cfg'), HS('prunea-q', 'MC_AffTree_prunea_q.cfg'), HS('prunedeep-q', 'MC_AffTree_prunedeep_q.cfg'),
           # K = 4: two-row decisions below the root (cached witnesses must satisfy every row), children under labels no input takes
-          HS('prune-k4', 'MC_AffTree_prune_k4.cfg')]
+          HS('prune-k4', 'MC_AffTree_prune_k4.cfg'), DR('eliminate')]
     if tier == 'thorough':
         st += [HS('prune-t', 'MC_AffTree_prune_t.cfg'), HS('pruneg-t', 'MC_AffTree_pruneg_t.cfg')]
     return st
@@ -236,6 +236,72 @@ def history_random(seed, tier):
             sc['lhs'] = [{'op': 'from_aff', 'p': 0, 'l': 0, 'a': H_TERM12[0]}, {'op': 'from_aff', 'p': 0, 'l': 0, 'a': H_TERM12[0]}]
         scripts.append(sc)
     return scripts
+
+
+# ---- seeded random larger trees over R^2 (deeper and wider than the exhaustive bounds), judged by the same validators
+D_PRED2 = [_aff([[1, 0]], [0]), _aff([[0, 1]], [1]), _aff([[1, 1]], [1]), _aff([[1, -1]], [0]), _aff([[-1, 0]], [0]), _aff([[1, 0]], [-1]),
+           _aff([[-1, -1]], [-2]), _aff([[0, 1]], [0]), _aff([[2, 1]], [1]), _aff([[0, -1]], [-2])]
+D_TERM22 = [_aff([[1, 0], [0, 1]], [0, 0]), _aff([[0, 1], [1, 0]], [1, -2]), _aff([[2, 0], [0, -1]], [0, -1]), _aff([[0, 0], [0, 1]], [0, 0]),
+            _aff([[1, 1], [1, -1]], [0, 1]), _aff([[1, 0], [0, 1]], [0, 1])]
+NOAFF = {'m': [], 'b': [], 'q': 1}
+
+
+def _rand_tree2(rnd, depth, terms, pmiss=0.1, pleaf=0.25):
+    if depth == 0 or rnd.random() < pleaf:
+        return ('L', rnd.choice(terms))
+    kids = [None if rnd.random() < pmiss else _rand_tree2(rnd, depth - 1, terms, pmiss, pleaf) for _ in range(2)]
+    if kids[0] is None and kids[1] is None:
+        kids[rnd.randrange(2)] = ('L', rnd.choice(terms))
+    return ('D', rnd.choice(D_PRED2), kids)
+
+
+def deep_random(kind):
+    """kind: reduce | compose | arith | eliminate | regions. Every scenario is a tree (pair) with up to 15 decisions."""
+    def gen(seed, tier):
+        rnd = random.Random(hash(kind) % 100000 + 7 * seed) if False else random.Random(sum(map(ord, kind)) * 1000 + seed)
+        n = 24 if tier == 'quick' else 400
+        out = []
+        for _ in range(n):
+            if kind == 'reduce':
+                # two terminal functions only, no missing children: merges cascade over several levels
+                t = _rand_tree2(rnd, 4, D_TERM22[:2], pmiss=0.0 if rnd.random() < 0.7 else 0.15, pleaf=0.2)
+                out.append({'fam': 'afftree', 'k': 2, 'q': 1, 'mode': 'reduce', 'lhs': _script_of(t), 'rhs': [], 'op': 'reduce', 'aff': NOAFF})
+            elif kind == 'compose':
+                f = _rand_tree2(rnd, 3, D_TERM22)
+                g = _rand_tree2(rnd, 2, D_TERM22)
+                out.append({'fam': 'afftree', 'k': 2, 'q': 1, 'mode': 'compose', 'lhs': _script_of(f), 'rhs': _script_of(g),
+                            'op': rnd.choice(['compose', 'compose', 'compose_prune']), 'aff': NOAFF})
+            elif kind == 'arith':
+                f = _rand_tree2(rnd, 3, D_TERM22)
+                if rnd.random() < 0.3:
+                    out.append({'fam': 'afftree', 'k': 2, 'q': 1, 'mode': 'arithaff', 'lhs': _script_of(f), 'rhs': [],
+                                'op': rnd.choice(['neg', 'add_aff', 'sub_aff', 'mul_aff']), 'aff': rnd.choice(D_TERM22)})
+                else:
+                    g = _rand_tree2(rnd, 2, D_TERM22)
+                    out.append({'fam': 'afftree', 'k': 2, 'q': 1, 'mode': 'arith', 'lhs': _script_of(f), 'rhs': _script_of(g),
+                                'op': rnd.choice(['add', 'sub', 'mul']), 'aff': NOAFF})
+            elif kind == 'eliminate':
+                t = _rand_tree2(rnd, 4, D_TERM22, pmiss=0.1, pleaf=0.15)
+                steps = [{'op': 'eliminate', 'rhs': [], 'aff': NOAFF}]
+                if rnd.random() < 0.5:
+                    steps = [{'op': rnd.choice(['compose', 'compose_prune']), 'rhs': _script_of(_rand_tree2(rnd, 1, D_TERM22)), 'aff': NOAFF}] + steps
+                out.append({'fam': 'afftree', 'k': 2, 'q': 1, 'mode': 'history', 'lhs': _script_of(t), 'steps': steps, 'faults': [], 'all': True})
+            elif kind == 'regions':
+                t = _rand_tree2(rnd, 4, D_TERM22)
+                nn = len(_script_of(t))
+                sched = []
+                for j in range(nn):
+                    sched.append('n')
+                    if rnd.random() < 0.12:
+                        sched.append('s')
+                out.append({'fam': 'regions', 'k': 2, 'q': 1, 'mode': 'regions', 'lhs': _script_of(t), 'rhs': [], 'op': 'regions', 'sched': sched, 'aff': NOAFF})
+        return out
+    return gen
+
+
+def DR(kind, trace='Trace_AffTree', shard=8):
+    nt = regions_nontrivial if kind == 'regions' else (history_nontrivial if kind == 'eliminate' else afftree_nontrivial)
+    return Stage('deep-' + kind, trace, gen=deep_random(kind), nontrivial=nt, shard_events=shard)
 
 
 def history_stages(tier):
@@ -338,14 +404,14 @@ def fault_stages(tier):
 def c07_stages(tier):
     st = [AT('arith-q', 'MC_AffTree_arith_q.cfg'), AT('arithaff-q', 'MC_AffTree_arithaff_q.cfg'), AT('arith-deep', 'MC_AffTree_arith_deep.cfg'), AT('arith-k4', 'MC_AffTree_arith_k4.cfg'),
           # operands that carry cached feasibility states from an earlier elimination
-          HS('prunea-q', 'MC_AffTree_prunea_q.cfg')]
+          HS('prunea-q', 'MC_AffTree_prunea_q.cfg'), DR('arith')]
     if tier == 'thorough':
         st += [AT('arith-t', 'MC_AffTree_arith_t.cfg')]
     return st
 
 
 def c08_stages(tier):
-    st = [AT('reduce-q', 'MC_AffTree_reduce_q.cfg'), AT('reduce-p', 'MC_AffTree_reduce_p.cfg')]
+    st = [AT('reduce-q', 'MC_AffTree_reduce_q.cfg'), AT('reduce-p', 'MC_AffTree_reduce_p.cfg'), DR('reduce')]
     if tier == 'thorough':
         st += [AT('reduce-t', 'MC_AffTree_reduce_t.cfg')]
     return st
